@@ -39,11 +39,14 @@ Faulty(i) ==
       K(b \o ".txt", "file", "eopen"), K(b \o ".html", "file", "eopen"),
       K(b \o "..x", "file", "none"), K(b \o "..x", "dir", "none"),
       K(b \o ".\\x", "file", "none"), K(b \o "\\\\x", "file", "none") }
-    \cup (IF DotFaults THEN { K("." \o b, "dangling", "none"), K("." \o b, "socket", "none"),
-                              K("." \o b, "fifo", "none"), K("." \o b, "file", "vanish1") }
-          ELSE {})
+\* dot-named special files: UMN's link-processing path (singles only)
+DotFaulty(i) ==
+    LET b == Pool[i] IN
+    IF DotFaults THEN { K("." \o b, "dangling", "none"), K("." \o b, "socket", "none"),
+                        K("." \o b, "fifo", "none"), K("." \o b, "file", "vanish1") }
+    ELSE {}
 
-Singles(n) == UNION {{ {[i |-> a, k |-> ka]} : ka \in Faulty(a)} : a \in 1..n}
+Singles(n) == UNION {{ {[i |-> a, k |-> ka]} : ka \in Faulty(a) \cup DotFaulty(a)} : a \in 1..n}
 Pairs(n)   == UNION {UNION {{ {[i |-> a, k |-> ka], [i |-> b, k |-> kb]} : ka \in Faulty(a), kb \in Faulty(b)}
                             : b \in (a + 1)..n} : a \in 1..n}
 FaultSets(n, pairn) == {{}} \cup Singles(n) \cup (IF n <= pairn THEN Pairs(n) ELSE {})
@@ -58,18 +61,19 @@ MkDir(sel, lst, kids) ==
 \* a fault at the second touch only makes sense where the chain touches the child twice
 ValidCase(dd) == \A k \in dd.kids : k.fault \in {"vanish2", "eopen"} => NTouches(dd, k) = 2
 
-Cases == UNION {UNION {UNION {
-            {MkDir(s.sel, s.list, KidsFor(n, r, F)) : F \in FaultSets(n, s.pairn)}
-            : r \in Rotations} : n \in 1..s.maxn} : s \in Scopes}
-
 RECURSIVE SetAsSeq(_)
 SetAsSeq(S) == IF S = {} THEN <<>> ELSE LET x == CHOOSE y \in S : TRUE IN <<x>> \o SetAsSeq(S \ {x})
 SortedNames(dd) == SortStrSeq(SetAsSeq(Names(dd)))
 Reverse(s) == [i \in DOMAIN s |-> s[Len(s) + 1 - i]]
 OrderFor(dd, m) == IF m = "reversed" THEN Reverse(SortedNames(dd)) ELSE SortedNames(dd)
 
-Init == /\ \E dd \in {c \in Cases : ValidCase(c)} : DirInit(dd)
-        /\ ord \in OrderModes /\ proto = "-"
+\* singles (and the fault-free controls) are driven under every enumeration order of OrderModes,
+\* pairs under the sorted one
+Init == \E s \in Scopes : \E n \in 1..s.maxn : \E r \in Rotations : \E F \in FaultSets(n, s.pairn) :
+            LET dd == MkDir(s.sel, s.list, KidsFor(n, r, F)) IN
+            /\ ValidCase(dd) /\ DirInit(dd)
+            /\ ord \in (IF Cardinality(F) >= 2 THEN {"sorted"} ELSE OrderModes)
+            /\ proto = "-"
 
 Respond(pr) == pc = "done" /\ proto = "-" /\ proto' = pr /\ UNCHANGED <<dvars, ord>>
 
